@@ -113,6 +113,13 @@ func (r *Rec) Class(names ...string) {
 	r.mu.Unlock()
 }
 
+// ClassCount returns how often a class was recorded so far (in this process).
+func (r *Rec) ClassCount(name string) int64 {
+	r.mu.Lock()
+	defer r.mu.Unlock()
+	return r.Classes[name]
+}
+
 func (r *Rec) ClassN(name string, n int64) {
 	r.mu.Lock()
 	r.Classes[name] += n
